@@ -89,6 +89,9 @@ func termUnit(c *Ctx, src string, txts []string, nullable bool) {
 		c.Count("runs", 1)
 		c.Max("vm_steps_per_run", stepCount)
 		c.Outcome(fmt.Sprint(stepCount))
+		if stepCount > 2000 {
+			c.Sample(map[string]any{"program": src, "text": t, "vm_instructions": stepCount})
+		}
 		if pi != nil && pi.Site == "STEP-BUDGET" {
 			c.Violation("NONTERMINATION step budget", fmt.Sprintf("%q on %q: more than %d VM instructions", src, t, stepBudgetC10),
 				map[string]any{"kind": "steps", "src": src, "text": t, "budget": stepBudgetC10})
